@@ -29,6 +29,8 @@ func init() {
 		{"C11", "bufviews", props.BufViews},
 		{"C10", "bufviews", props.BufViews},
 		{"C02", "bufviews", props.BufViews},
+		{"C19", "notify", props.NotifyBuffered("p2p")},
+		{"C10", "notify", props.NotifyBuffered("gmw", "p2p")},
 		{"C10", "needspace", props.NeedSpaceBounded},
 		{"C11", "needspace", props.NeedSpaceBounded},
 		{"C05", "needspace", props.NeedSpaceBounded},
